@@ -372,7 +372,8 @@ TABLE = {
     ],
 }
 def shards(tier, seed):
-    return [{'nshards': NSHARDS, 'budget_s': 330 if tier == 'quick' else 2700} for _ in range(NSHARDS)]
+    # the gamma family is cheap: three times the default number of evaluations per cell
+    return [{'nshards': NSHARDS, 'budget_s': 330 if tier == 'quick' else 2700, 'scale': 3.0} for _ in range(NSHARDS)]
 
 
 # ---- exact special clauses -------------------------------------------------------------------------------
